@@ -298,14 +298,21 @@ func parseTildeConstraint(version string) ([]*constraint, error) {
 	}
 }
 
-// hasWildcardComponent reports whether a dot-separated component is exactly * or x
+// hasWildcardComponent reports whether c is a wildcard constraint (1.2.*, 1.x): numeric components
+// and at least one component that is exactly * or x. Anything else in a component (an operator, a
+// branch name, build metadata) makes c a comparator or a version, whose letters x belong to it
+// (>=1.0.0+build.x, dev-feature.x).
 func hasWildcardComponent(c string) bool {
+	wildcard := false
 	for _, part := range strings.Split(c, ".") {
-		if part == "*" || part == "x" {
-			return true
+		switch {
+		case part == "*" || part == "x":
+			wildcard = true
+		case part == "" || strings.Trim(part, "0123456789") != "":
+			return false
 		}
 	}
-	return false
+	return wildcard
 }
 
 // parseWildcardConstraint handles wildcard constraints (1.2.* or 1.x)
